@@ -24,6 +24,7 @@ SPECS = {
    ("C02_request_is_lazy_callback", "action_request_is_lazy_top", "an action performed through a control changes neither the active state nor registry.requested; a permitted changeTo/changeWith overwrites the outstanding request with (caller, destination, payload)"),
    ("C02_later_request_replaces_earlier", "request_overwrites", "a later request replaces an earlier unprocessed one"),
    ("C02_update_processes_at_the_end", "cycle_processes_last", "update()/react(): the phase callbacks and the plan step apply no transition (quiet), then requests are processed exactly once"),
+   ("C02_every_reachable_state_is_ready", "reachable_ready", "the hypothesis Ready of the statements above holds in every state reached by an in-contract history (when the machine is active)"),
    ("C02_survivor_is_a_round_that_passed", "applied_passed_guards", "the applied transition was the pending transition of a round that was neither cancelled nor dropped, and no later round survived"),
  ]),
  "C03": ("C03 - Guards can veto: a cancelled transition is never applied. Theorems only. " + VOC, [
